@@ -7,6 +7,9 @@ fn main() {
     println!("cargo:rerun-if-changed=/repo/inmem/src/graph.rs");
     println!("cargo:rerun-if-changed=/repo/inmem/src/dataset.rs");
     println!("cargo:rerun-if-changed=build.rs");
+    // a path that never exists: cargo then re-runs this (cheap) script on EVERY build, so the detection
+    // can never be stale (an mtime-based re-run was observed to be skipped once after `git apply`)
+    println!("cargo:rerun-if-changed=/nonexistent/vh-c10-always-rerun");
     let has = |f: &str| std::fs::read_to_string(f).map(|s| s.contains("fn verif_audit")).unwrap_or(false);
     if has(p) && has("/repo/inmem/src/graph.rs") && has("/repo/inmem/src/dataset.rs") {
         println!("cargo:rustc-cfg=has_audit");
